@@ -21,6 +21,9 @@ func Dial(ctx context.Context, network, addr string) (net.Conn, bool, error) {
 // Yield is a no-op without the verif tag.
 func Yield(site string) {}
 
+// Fault is a no-op without the verif tag.
+func Fault(site string) {}
+
 // PoolGet is a no-op without the verif tag.
 func PoolGet(pool any) (any, bool) { return nil, false }
 
